@@ -308,7 +308,7 @@ def main(tier, seed, only=None):
         if not thorough and n.endswith("more_area"):
             continue        # the largest captured LP (seaweed + expansion): ~10 s per exact query on an idle machine, kept for the thorough tier
         # thorough: 120 months for the runs without resilient foods (light LPs), 72 months for the resilient ones (exact queries on their LPs grow quickly with the horizon)
-        inst.append(dict(country=c, scenario=n, NM=48 if not thorough else (120 if "resilient" not in n else 72), timeout_s=150 if not thorough else 900))
+        inst.append(dict(country=c, scenario=n, NM=48 if not thorough else (120 if "resilient" not in n else (48 if n.endswith("more_area") else 72)), timeout_s=150 if not thorough else 900))      # more_area at 72 months: one exact query ran past 900 s
     if not thorough:
         inst += [dict(country=c, scenario=n, NM=72) for c, n in (("FRA", names[0]), ("NZL", names[-1]), ("IND", names[1 % len(names)]), ("JPN", names[2 % len(names)]))]
     if thorough:
